@@ -232,3 +232,50 @@ def value_model(object_transparent=False):
     if not object_transparent:
         return VALUE_MODEL
     return VALUE_MODEL.replace("#[verifier::external_body]\npub struct ObjectRef { _p: () }\n", "") + OBJECT_MODEL
+
+
+MATCH_EVAL_EXPR_TEMPLATE = """macro_rules! match_eval_expr {
+    (
+        ( $context:ident, $scopes:ident, $expr:expr )
+        { $( $key:pat => $value:expr , )* }
+    ) => {{
+        let value = CALLEE($context, $scopes, $expr)
+            .context(EvalExprFailed)?;
+        match value.v {
+            $( $key => $value , )*
+        }
+    }};
+}"""
+
+
+def expand_match_eval_expr(fn_text, macro_text, callee):
+    """D4: the crate's own `match_eval_expr!` macro is expanded mechanically (what rustc does), so that
+    ghost annotations can be placed inside its arms (Verus does not process syntax inside macro
+    arguments).  The macro definition copied from /repo must be EXACTLY the known one; otherwise
+    Undecided.  Returns (text, number of expansions)."""
+    import re as _re
+    from common import Undecided
+    norm = lambda x: _re.sub(r"\s+", " ", x).strip()
+    if norm(macro_text) != norm(MATCH_EVAL_EXPR_TEMPLATE.replace("CALLEE", callee)):
+        raise Undecided("macro match_eval_expr differs from the definition the expander knows")
+    n = 0
+    while True:
+        i = fn_text.find("match_eval_expr!(")
+        if i < 0:
+            break
+        p0 = i + len("match_eval_expr!")
+        p1 = extract.match_brace(fn_text, p0)            # closing ')' of the invocation
+        inner = fn_text[p0 + 1:p1]
+        a = inner.index("(")
+        bclose = extract.match_brace(inner, a)
+        args = [x.strip() for x in inner[a + 1:bclose].split(",")]
+        if len(args) != 3:
+            raise Undecided("match_eval_expr!: unexpected argument list")
+        c = inner.index("{", bclose)
+        cclose = extract.match_brace(inner, c)
+        arms = inner[c + 1:cclose]
+        exp = ("{\n let value = " + callee + f"({args[0]}, {args[1]}, {args[2]})\n            .context(EvalExprFailed)?;\n"
+               " match value.v {" + arms + "}\n}")
+        fn_text = fn_text[:i] + exp + fn_text[p1 + 1:]
+        n += 1
+    return fn_text, n
